@@ -144,6 +144,7 @@ def _prove_instance(obl, case, tier, known_witnesses, timeout_ms=60000):
                 getattr(ctx, "_tb", ""))
 
     budget = obl.budget or {}
+    timeout_ms = budget.get("timeout_ms", timeout_ms)
     try:
         paths = explore(run_once, max_paths=budget.get("paths", 256))
     except Unsupported as e:
@@ -233,6 +234,14 @@ def _prove_instance(obl, case, tier, known_witnesses, timeout_ms=60000):
                 return res
             s.pop()
             if r != z3.unsat:
+                # fallback prover G: polynomial identity modulo the polynomial equalities among the hypotheses (sound, exact)
+                try:
+                    from . import poly
+                    if poly.prove(hyps, g):
+                        res["groebner_vcs"] = res.get("groebner_vcs", 0) + 1
+                        continue
+                except Exception as e:      # noqa: BLE001 - the fallback may only ever add proofs
+                    res["groebner_error"] = f"{type(e).__name__}: {e}"
                 res.update(verdict="undecided", reason=f"solver {r} on {lab} ({s.reason_unknown()})")
                 res["solver_s"] = time.time() - t0
                 return res
